@@ -860,7 +860,7 @@ fn audit(
 
 fn k_and_budget(ctx: &Ctx) -> (usize, usize, u64) {
   // (enumerated blocks L, deviation bound K, wall budget seconds)
-  if ctx.thorough() { (3, 3, 1500) } else { (2, 2, 45) }
+  if ctx.thorough() { (3, 3, 600) } else { (2, 2, 45) }
 }
 
 pub fn run(ctx: &Ctx, property: &'static str) -> Report {
